@@ -41,6 +41,11 @@ fn field_ty_text(f: &Field, u: &Universe) -> String {
     // (the chunk crates import `minicbor::bytes::{self, ByteSlice}`)
     if matches!(f.ty, Ty::ByteSliceRef | Ty::CowByteSlice) { t = t.replace("minicbor::bytes::ByteSlice", ["ByteSlice", "bytes::ByteSlice", "minicbor::bytes::ByteSlice"][(f.idx as usize + f.name.len() / 2) % 3]) }
     // the spelling of `Option` must not matter (fully qualified paths are what code generators emit)
+    // optional only through the traits: a type alias hides the `Option` from the macros (every third optional field of enum
+    // or struct type without a codec; with a codec the spelling decides optionality, so those keep the plain form)
+    if f.optional && f.fwd == 0 && matches!(f.ty, Ty::Enum(_) | Ty::Struct(_)) && (f.idx as usize + f.name.len()) % 3 == 0 {
+        if let Ty::Enum(i) | Ty::Struct(i) = &f.ty { if !matches!(&u.defs[*i], Def::Struct(s) if s.generic) { return format!("{}Opt{}", u.defs[*i].name(), lt(u, &u.defs[*i])) } }
+    }
     if f.optional { format!("{}<{}>", ["Option", "std::option::Option", "core::option::Option", "::core::option::Option", "Option"][(f.idx as usize + f.name.len()) % 5], t) } else { t }
 }
 
@@ -163,6 +168,8 @@ fn def_source_a(d: &Def, u: &Universe) -> String {
             writeln!(s, "}}").unwrap();
         }
     }
+    // an alias under which fields can hold this type optionally without spelling `Option` (see field_ty_text)
+    if !matches!(d, Def::Struct(st) if st.generic) { writeln!(s, "pub type {}Opt{} = Option<{}{}>;", d.name(), lt(u, d), d.name(), lt(u, d)).unwrap() }
     s
 }
 
